@@ -1044,7 +1044,13 @@ def solver_case(rng, hist, big=False):
     if ncoll:
         v = first_violation([shown], rels)
         if v is not None:
-            findings.append(viol_key("solver/final-solution", v, rels, "final solution"))
+            key, what = viol_key("solver/final-solution", v, rels, "final solution")
+            lo = events[v[1]["ev"]]["ncalls"]
+            if solver_name != "NM" and final in calls[:lo] and final not in calls[lo:]:
+                # the reported best was found BEFORE the collapse that imposed the relation and never replaced
+                key = "solver/final-solution/pre-collapse-best-survives"
+                what = "the best point found before collapse #%d was never replaced: %s" % (v[1]["ev"] + 1, what)
+            findings.append((key, what))
     if ncoll > universe:
         findings.append(("solver/too-many-collapses", "%d collapses for %d indices + pairs" % (ncoll, universe)))
     msg = s.Terminated(info=True)
@@ -1082,7 +1088,8 @@ def rel_indices(r):
 
 
 def rel_writes(r):
-    return {r["i"]} if r["kind"] == "fixed" else {r["j"]}
+    # impose_as groups its pairs with tools.connected, which may take EITHER member of a pair as the one to overwrite
+    return {r["i"]} if r["kind"] == "fixed" else {r["i"], r["j"]}
 
 
 def exec_rank(r):
